@@ -1,3 +1,4 @@
+import os, sys
 HARNESSES = [
     {'name': 'h_vsm', 'src': 'C13/h_vsm.cpp', 'entry': 'h_vsm', 'repo_srcs': [], 'covers': [1, 2, 3, 4], 'jobs': 8,
      'obligations': ['ValueSortedMap: after every operation the sorted view and the key map hold the same multiset of values (arbitrary probe value)',
@@ -7,5 +8,9 @@ HARNESSES = [
                'thorough': [{'defines': ['NOPS=4'], 'bound': 'all sequences of 4 operations, keys 0..3, values 0..15', 'timeout': 1700, 'jobs': 16},
                             {'defines': ['NOPS=3'], 'bound': 'all sequences of 3 operations', 'timeout': 300}]}},
 ]
+import importlib.util as _ilu
+_rp = _ilu.spec_from_file_location('realspec', os.path.join(os.path.dirname(os.path.abspath(__file__)), '..', 'real', 'spec.py'))
+_real = _ilu.module_from_spec(_rp); _rp.loader.exec_module(_real)
+HARNESSES += _real.MEMPOOL_HARNESSES
 EXPLANATION = 'The real ValueSortedMap template (with libstdc++ multiset/unordered_map code inlined from the headers) is executed symbolically over every bounded operation sequence.'
 ASSUMPTIONS = ['MemPool itself (maps, relations, cleanUp) is outside this check: only its height-sorted container is decided']
